@@ -44,6 +44,8 @@ def shards(tier, seed):
         out.append(("seq_%d" % i, dict(kind="seq", part=i, parts=4 if q else 16, maxlen=3 if q else 4, ncurves=1 if q else 3)))
     for nm in ("SECP112r2", "NIST192p") if q else ("SECP112r2", "NIST192p", "NIST256p", "SECP160r1", "BRAINPOOLP160r1", "NIST521p"):
         out.append(("keys_%s" % nm, dict(kind="keys", cname=nm, walks=3 if q else 20, steps=40)))
+    out.append(("cross_curve", dict(kind="cross", rounds=40 if q else 600)))
+    out.append(("twin_keys", dict(kind="twin", rounds=30 if q else 600, steps=14)))
     return out
 
 
@@ -496,8 +498,93 @@ def key_walk(ctx, c, dom, steps, der_ok=True):
     ctx.nontrivial.add("keyhistory|%s|%s" % (c.name, hashlib.sha1(repr(hist).encode()).hexdigest()[:10]))
 
 
+def twin_keys(ctx, rng, rounds, steps):
+    """Two keys on two DIFFERENT curves over the same field whose public points (hence raw encodings) are identical: the history
+    of one key must not leak into the other (state shared by encoding / coordinates instead of by value)."""
+    import pickle
+    from vf import toy
+    bypoint = {}
+    cands = [t for t in toy.prime_order(37, 61, nmin=23)]
+    for t in cands:
+        for P in t.pts:
+            bypoint.setdefault((t.curve.p, P), []).append(t)
+    keys_ = [k for k, v in bypoint.items() if len(v) >= 2]
+    hf = hashlib.sha256
+    for _ in range(rounds):
+        k = keys_[rng.randrange(len(keys_))]
+        t1, t2 = rng.sample(bypoint[k], 2)
+        Qp = k[1]
+        side = []
+        for t in (t1, t2):
+            c, dom = sigs.toy_lib_curve(t)
+            d = next(dd for dd in range(1, dom.n) if dom.curve.mul(dd, dom.G) == Qp)
+            msg = b"twin %d" % rng.randrange(1000)
+            e = ecdsa_ref.digest_to_e(dom, hf(msg).digest(), True)
+            while True:
+                rs = ecdsa_ref.sign(dom, d, rng.randrange(1, dom.n), e)
+                if isinstance(rs, tuple):
+                    break
+            good = sigs.ref_encode("string", rs[0], rs[1], dom.n)
+            sb = next(x for x in range(1, dom.n) if not ecdsa_ref.verify(dom, Qp, e, rs[0], (rs[1] + x) % dom.n))
+            bad = sigs.ref_encode("string", rs[0], (rs[1] + sb) % dom.n, dom.n)
+            mk = rng.choice(("point", "string", "sk"))
+            if mk == "point":
+                vk = ecdsa.VerifyingKey.from_public_point(Point(c.curve, Qp[0], Qp[1]), c, hf)
+            elif mk == "string":
+                vk = ecdsa.VerifyingKey.from_string(sec1.encode_point(dom, Qp, "uncompressed"), c, hf)
+            else:
+                vk = ecdsa.SigningKey.from_secret_exponent(d, c, hf).verifying_key
+            side.append(dict(c=c, dom=dom, d=d, msg=msg, good=good, bad=bad, vk=vk, raw=sec1.encode_point(dom, Qp, "raw")))
+        hist = []
+        wit = dict(E1=t1.curve.key(), E2=t2.curve.key(), Q=Qp)
+        ctx.case("twin_keys", key="%r|%r" % (t1.curve.key(), t2.curve.key()), nontrivial=True, sample=dict(wit) if ctx.want("twin_keys") else None)
+        for _s in range(steps):
+            i = rng.randrange(2)
+            o = side[i]
+            op = rng.choice(("precompute", "precompute_lazy", "verify", "verify", "verify_bad", "to_string", "eq_fresh", "ne_other", "pickle", "point"))
+            hist.append((i, op))
+            try:
+                if op in ("precompute", "precompute_lazy"):
+                    o["vk"].precompute(lazy=op == "precompute_lazy")
+                    got = want = None
+                elif op == "verify":
+                    got, want = o["vk"].verify(o["good"], o["msg"]), True
+                elif op == "verify_bad":
+                    try:
+                        got = o["vk"].verify(o["bad"], o["msg"])
+                    except ecdsa.BadSignatureError:
+                        got = "BadSignatureError"
+                    want = "BadSignatureError"
+                elif op == "to_string":
+                    got, want = o["vk"].to_string(), o["raw"]
+                elif op == "eq_fresh":
+                    fresh_vk = ecdsa.VerifyingKey.from_string(o["raw"], o["c"], hf)
+                    got, want = (o["vk"] == fresh_vk, fresh_vk == o["vk"], o["vk"] != fresh_vk), (True, True, False)
+                elif op == "ne_other":
+                    got, want = (o["vk"] == side[1 - i]["vk"], o["vk"] != side[1 - i]["vk"]), (False, True)
+                elif op == "pickle":
+                    v2 = pickle.loads(pickle.dumps(o["vk"]))
+                    got, want = (v2 == o["vk"], v2.verify(o["good"], o["msg"]), v2.to_string()), (True, True, o["raw"])
+                else:
+                    pt = o["vk"].pubkey.point
+                    cv = o["dom"].curve
+                    m = rng.randrange(2, o["dom"].n)
+                    R = pt * m
+                    got = (pt.curve() == o["c"].curve, (pt.x(), pt.y()), None if R is INFINITY else (R.x(), R.y()))
+                    want = (True, Qp, cv.mul(m, Qp))
+            except Exception as e:
+                got, want = "raised %s: %s" % (type(e).__name__, e), "no exception"
+            ctx.count("twin_keys.ops")
+            if got != want:
+                ctx.violation("key_affected_by_history_of_a_key_on_another_curve:" + op,
+                              "curves %r / %r sharing the point %r: after %r, %s on key %d gives %r, expected %r" % (t1.curve.key(), t2.curve.key(), Qp, hist, op, i, got, want), dict(wit, history=hist))
+                break
+
+
 def run(ctx, name, kind, **kw):
     rng = ctx.rng
+    if kind == "twin":
+        return twin_keys(ctx, rng, kw["rounds"], kw["steps"])
     if kind == "walk":
         if kw["family"] == "toy":
             ts = sigs.toy_prime_curves(11, 61)
@@ -511,6 +598,9 @@ def run(ctx, name, kind, **kw):
             dom = lib.dom_of(c)
             for _ in range(kw["walks"]):
                 walk(ctx, dom, c.curve, c.name, kw["steps"], dom.n)
+    elif kind == "cross":
+        from vf.props import c06
+        c06.cross_curve(ctx, rng, kw["rounds"])
     elif kind == "seq":
         ts = sigs.toy_prime_curves(13, 61)
         seqs = []
